@@ -891,3 +891,39 @@ def inttext(facts: CppFacts, only=None):
     if only is not None:
         res.findings = [x for x in res.findings if any(f"|{o}" in x.key for o in only)]
     return res
+
+
+# ---- R-SIGNEXT ------------------------------------------------------------------------------------------
+def signext(facts: CppFacts):
+    """R-SIGNEXT (C02): a view whose value type can be signed and wider than the field must interpret the raw bits as
+    two's complement *at the field width*.  The raw value comes from `buffer_.ReadUInt()` / `UncheckedReadUInt()` as an
+    unsigned integer; turning it into a negative number needs a conversion that depends on `Parameters::kBits`
+    (IntView::ConvertToSigned).  A bare `static_cast<ValueType>(raw)` zero-extends: a field narrower than the value
+    type never reads back a negative value."""
+    res = RuleResult("R-SIGNEXT")
+    for cls, may_be_signed in (("IntView", "ValueType is LeastWidthInteger<kBits>::Signed"),
+                               ("EnumView", "ValueType is the enum, whose underlying type is signed for [is_signed: true]")):
+        own = {m.name: m for m in facts.by_class(cls)}
+        for meth in ("Read", "UncheckedRead"):
+            m = own.get(meth)
+            if m is None:
+                raise AnalysisError(f"{cls}::{meth} vanished")
+            res.instances += 1
+            body = _CM.sub("", m.body)
+            mm = re.search(r"(\w+)\s*\(\s*buffer_\s*\.\s*(?:Unchecked)?ReadUInt\s*\(\s*\)\s*\)", body)
+            conv = mm.group(1) if mm else None
+            depends = False
+            if conv and conv in own:
+                depends = "kBits" in own[conv].body
+            elif conv is None and "kBits" in body:
+                depends = True
+            if not depends:
+                how = f"through {conv}, which does not mention kBits" if conv in own else \
+                      "with a bare static_cast" if re.search(r"static_cast\s*<[^>]*ValueType\s*>\s*\(\s*buffer_", body) else "without a width-dependent conversion"
+                res.add(f"{m.file}|{cls}::{meth}|no-sign-extension", f"{cls}::{meth} converts the raw field bits to ValueType {how}; "
+                        f"{may_be_signed}, so in a field narrower than ValueType the top bit of the field is not taken as the sign "
+                        "(an all-ones 8-bit field of a 16-bit signed enum reads 255, not -1)", m.file, m.line, f"{cls}::{meth}")
+            elif len(res.samples) < 2:
+                res.samples.append(f"{cls}::{meth}: raw value through {conv or 'a kBits-dependent expression'}")
+    res.analysed = ["runtime/cpp/emboss_prelude.h", "runtime/cpp/emboss_enum_view.h"]
+    return res
